@@ -309,3 +309,14 @@ CHECKS["C01"] = {
     "outside": ["CFF and CID-keyed fonts at font level", "GSUB/GPOS/GDEF inside the whole font", "arbitrary accepted byte strings as whole files", "strings, version and timestamps as symbols", "italic angle other than 0 (trigonometric functions)", "fonts with more than 4 glyphs"],
     "assumptions": ["derived style fields (IsBold/IsItalic/IsRegular, which the reader also infers from weight and subfamily name) are compared only through the fixed point, not against F"],
 }
+
+CHECKS["C16"] = {
+    "harnesses": [
+        H(".", ["c16.go", "common.go"], "VerifH_C16_readonly", ["done"], quick={"timeout": 280, "shards": 9}),
+    ],
+    "level_text": "Frame argument decided symbolically: after the font is built every existing object (the font, everything reachable from it, all package-level variables) is frozen and every store, map update, delete, in-place append or copy into a frozen object during a read-only API call is an obligation, on every path.  Operations that only read shared memory cannot race with each other under the Go memory model and their results are functions of the shared state alone; this is a sufficient condition, actual interleavings are not explored.",
+    "bounds": {"quick": "one TrueType font (5 glyphs incl. a composite and an empty glyph, format 12 cmap, one GSUB 4.1 lookup, one GPOS 2.1 lookup with script/feature lists); operations: Write, WriteTrueTypePDF, Subset (symbolic glyph), Clone, FontBBox/Widths/GlyphBBoxes/IsFixedPitch/NumGlyphs, MakeGlyphNames, GetFontInfo, NewLayouter+Layout twice, gtab.NewContext+Apply on the shared lookup list",
+               "thorough": "same"},
+    "outside": ["actual goroutine interleavings and the Go race detector", "CFF fonts (AsCFF().Write, WriteOpenTypeCFFPDF)", "builder.ExplainGsub/ExplainGpos (formatting-bound)", "races inside natively executed library functions (language matcher, Adobe glyph list)"],
+    "assumptions": ["Go memory model: calls that do not write shared memory do not race", "natively executed intrinsics (x/text language matching, names.FromUnicode) are assumed not to write shared state"],
+}
